@@ -20,7 +20,7 @@ for mod in sys.argv[1:]:
 import OtterVerif.Gen.{mod}
 
 namespace OtterVerif.Pin.{mod}
-open OtterVerif
+open OtterVerif OtterVerif.Gen.{mod}
 
 /-- `rfl` when the regenerated term is the recorded one; otherwise try to see through a harmless rewrite
     (operand order of commutative operators) -/
@@ -30,18 +30,23 @@ local macro "pin_tac" d:ident : tactic =>
     | (simp only [$d:ident]; ac_rfl)
     | (simp [$d:ident, BitVec.add_comm, BitVec.and_comm, BitVec.or_comm, BitVec.xor_comm, BitVec.mul_comm, Bool.and_comm, Bool.or_comm]))
 ''']
-    for m in re.finditer(r'^def (\w+)((?: \([^)]*\))*) +: ([^\n]*?) :=\n  ([^\n]*)\n', src, re.M):
+    for m in re.finditer(r'^def (\w+)((?: \([^)]*\))*) +: ([^\n]*?) :=\n((?:  [^\n]*\n)+)', src, re.M):
         name, params, ty, body = m.groups()
         if name in ('siteParams', 'shape'):
             continue
         if ty.startswith('List'):
             continue
         args = ' '.join(re.findall(r'\((\w+) :', params))
+        body = body.rstrip('\n')
+        if '\n' in body:
+            body = '(\n' + '\n'.join('    ' + l for l in body.split('\n')) + ')'
+        else:
+            body = body.strip()
         out.append(f'theorem {name}_pin{params} :\n    Gen.{mod}.{name} {args} = {body} := by pin_tac Gen.{mod}.{name}\n')
     for tbl in ('siteParams', 'shape'):
         m = re.search(r'^def ' + tbl + r' : ([^\n]*?) := (\[.*?\])\n\n', src + '\n', re.M | re.S)
         if m:
-            out.append(f'theorem {tbl}_pin : Gen.{mod}.{tbl} = {m.group(2)} := by decide\n')
+            out.append(f'theorem {tbl}_pin : Gen.{mod}.{tbl} = {m.group(2)} := by rfl\n')
     out.append(f'end OtterVerif.Pin.{mod}\n')
     open(f'{V}/Pin/{mod}.lean', 'w').write('\n'.join(out))
     print(mod, len(out) - 2, 'pins')
